@@ -365,10 +365,10 @@ def solve(ob: Obligation, timeout_s=60.0, conditioned=True, confirm=None):
 
 
 # ------------------------------------------------------------------ cross-checking with other solvers
-def crosscheck(ob: Obligation, expect, timeout_s=60):
+def crosscheck(ob: Obligation, expect, timeout_s=60, with_axioms=True):
     """Run the (axiomatised) script through /usr/bin/z3 4.8.12 and the cvc5 binary.  Returns dict
     solver->answer; a definite answer different from `expect` or an `(error` line is a disagreement."""
-    script, atoms, bvars = ob.script(with_axioms=(expect != "unsat_abstract"))
+    script, atoms, bvars = ob.script(with_axioms=with_axioms)
     uses_uf = "declare-fun" in script
     nonlin = any(CTX.atoms[i][0] in ABSTRACT_KINDS for i in atoms) or any(
         len(m) > 1 for l, r in ob.pairs for p in (l, r) for m in p.t)
